@@ -184,6 +184,11 @@ def c08_2(ctx):
 
     def eq_atom(a, b):
         return ("op", "%s == %s" % tuple(sorted([a, b])))
+    # the clauses below read one comparison per field; a condition that compares several fields at once (a tuple comparison,
+    # any(...) over mismatch flags) is not read
+    compound = [o for o in ops if isinstance(o, str) and sum(1 for k in range(4) if "%s[%d]" % (DEC, k) in o) >= 2]
+    if compound:
+        raise Undecided("_bech32m compares several fields of the decoded address in one test (`%s`); this rule reads one comparison per field" % compound[0][:90])
     ctx.check(sym.entails(c, eq_atom("%s[0]" % DEC, "self._bech32_hrp")), "hrp-equality", ctx.where(f),
               "ParseAPI._bech32m does not refuse every address whose human-readable part differs from the network's (guards: %s); networks exist whose HRP is a prefix of another's (%s), so anything weaker than equality accepts foreign addresses"
               % (ops, ctx.cache.get("hrp_prefix_pairs", [])[:3]), sample={"guards": ops})
